@@ -362,9 +362,21 @@ impl<V: Debug + Clone> TrieNode<V> {
                         }
                         return remove_result;
                     } else {
-                        let len = self.regexps.len();
-                        self.regexps.retain(|(r, _)| r.as_str() != anchored_s);
-                        if len > self.regexps.len() {
+                        // The regex is the leftmost segment of the host being
+                        // removed: drop that host's own value. The subtree
+                        // may also hold deeper hosts (`w./re/.com` next to
+                        // `/re/.com`), which must survive; the node goes
+                        // away only once it is empty.
+                        let mut remove_result = RemoveResult::NotFound;
+                        for t in self.regexps.iter_mut() {
+                            if t.0.as_str() == anchored_s && t.1.key_value.is_some() {
+                                t.1.key_value = None;
+                                remove_result = RemoveResult::Ok;
+                            }
+                        }
+                        if remove_result == RemoveResult::Ok {
+                            self.regexps
+                                .retain(|(r, node)| r.as_str() != anchored_s || !node.is_empty());
                             return RemoveResult::Ok;
                         }
                     }
